@@ -167,7 +167,12 @@ def scenario(case, tag, with_fd=True):
         L.append("cell %s %s %s" % tuple(hx(x) for x in case["cell"]))
     else:
         L.append("nocell")
+    if case.get("temperature"):
+        L.append("temperature %r" % case["temperature"])
+    L.append("restartfreq %d" % case.get("restartfreq", 0))
     L += ["fresh", "config EOF", config_text(case), "EOF"]
+    if case.get("setstep") is not None:
+        L.append("setstep %d" % case["setstep"])
     for pre in case.get("presteps", []):      # history biases: steps at other positions first
         L.append("show cv 0 bias 0 atomf 0")
         for i, p in pre:
@@ -684,6 +689,9 @@ def fd_check(case, res):
         return "ambiguous", "finite-difference steps missing (%d of %d)" % (len(fd_steps), 4 * len(coords))
     forces = base["atomf"]
     fmax = max([1e-3] + [abs(x) for f in forces.values() for x in f])
+    emax = max([abs(base.get("energy", 0.0))] + [abs(st.get("energy") or 0.0) for st in fd_steps])
+    # rounding of the energy itself limits what a difference quotient can resolve
+    noise = 16 * 2.0 ** -52 * emax / H2
     worst = None
     for n, (a, k) in enumerate(coords):
         e = [fd_steps[4 * n + j].get("energy") for j in range(4)]
@@ -695,11 +703,12 @@ def fd_check(case, res):
         est = abs(d2 - d1)
         f = forces.get(a, [0.0, 0.0, 0.0])[k]
         scale = max(fmax, abs(rich))
-        if est > 1e-3 * scale:
-            # the two step sizes disagree: too close to a singular geometry / a kink for a verdict
-            return "ambiguous", "finite differences at the two step sizes disagree (atom %d axis %d: %r vs %r)" % (a + 1, k, d1, d2)
+        if est > 1e-3 * scale or noise > 1e-4 * scale:
+            # the two step sizes disagree (too close to a singular geometry / a kink), or the energy is so large
+            # that its rounding swamps the difference quotient: no verdict
+            return "ambiguous", "finite differences undecided (atom %d axis %d: %r vs %r, rounding noise %.3g)" % (a + 1, k, d1, d2, noise)
         err = abs(f + rich)
-        if err > TOL_FD * scale + 10 * est * 0.0:
+        if err > TOL_FD * scale + noise + 0.05 * est:
             if worst is None or err / scale > worst[0]:
                 worst = (err / scale, a, k, f, -rich)
     if worst:
@@ -775,7 +784,7 @@ def gen_unmodelled(r, n):
     names = ["rot_distance", "rot_fit_distance", "rmsd", "orientation", "orientationAngle", "orientationProj", "tilt", "spinAngle",
              "eulerPhi", "eulerTheta", "eulerPsi", "distanceVec", "distanceDir", "cartesian", "distancePairs",
              "rot_gyration", "eigenvector_nofit", "rot_distanceVec", "center_distanceVec", "groupCoord", "hBond",
-             "meta_nogrid", "abmd", "histogramRestraint", "distanceZ_periodic", "dihedral_walls", "mapTotal"]
+             "meta_nogrid", "opes_frozen", "abmd", "histogramRestraint", "distanceZ_periodic", "dihedral_walls", "mapTotal"]
     for i in range(n):
         name = names[i % len(names)] if i < 2 * len(names) else r.choice(names)
         na = r.randint(6, 10)
@@ -847,8 +856,13 @@ def gen_unmodelled(r, n):
         elif name == "meta_nogrid":
             touched = sorted(set(ids[:2] + oth2))
             conf = ("colvar {\n  name v0\n  width 0.5\n  distance {\n    group1 {\n      atomNumbers %s\n    }\n    group2 {\n      atomNumbers %s\n    }\n  }\n}\n"
-                    "metadynamics {\n  colvars v0\n  hillWeight 2.0\n  hillWidth 2.0\n  newHillFrequency 100000\n  useGrids off\n}" % (ids_str(ids[:2]), ids_str(oth2)))
-            pre = "shift"
+                    "metadynamics {\n  colvars v0\n  hillWeight 2.0\n  hillWidth 4.0\n  newHillFrequency 1000\n  useGrids off\n}" % (ids_str(ids[:2]), ids_str(oth2)))
+            pre = "shift2"
+        elif name == "opes_frozen":
+            touched = sorted(set(ids[:2] + oth2))
+            conf = ("colvar {\n  name v0\n  width 0.5\n  distance {\n    group1 {\n      atomNumbers %s\n    }\n    group2 {\n      atomNumbers %s\n    }\n  }\n}\n"
+                    "opes_metad {\n  colvars v0\n  newHillFrequency 1000\n  barrier 5.0\n  gaussianSigma 0.75\n}" % (ids_str(ids[:2]), ids_str(oth2)))
+            pre = "shift2"
         elif name == "abmd":
             touched = sorted(set(ids[:2] + oth2))
             conf = ("colvar {\n  name v0\n  distance {\n    group1 {\n      atomNumbers %s\n    }\n    group2 {\n      atomNumbers %s\n    }\n  }\n}\n"
@@ -876,9 +890,13 @@ def gen_unmodelled(r, n):
                     "  distanceZ {\n    componentCoeff -1.5\n    main {\n      atomNumbers %s\n    }\n    ref {\n      atomNumbers %s\n    }\n  }\n}\n%s\nlinear {\n  colvars v0\n  centers 0.0\n  forceConstant -0.5\n}"
                     % (ids_str(ids[:2]), ids_str(oth2), ids_str(ids[2:]), ids_str(oth2), harm))
         c = raw_case(r, name, na, conf, touched, cell=cell)
-        if pre == "shift":
-            # one step elsewhere first: a hill is deposited at step 0 at that position
-            c["presteps"] = [[(a, tuple(x + V.dyadic(r, -0.5, 0.5, bits=4) for x in c["atoms"][a][2])) for a in touched]]
+        if pre == "shift2":
+            # hills are deposited when step_absolute % 1000 == 0 and step_relative > 0: start at step 999, so that the
+            # second pre-step (at a slightly different configuration) deposits the only hill / kernel
+            c["setstep"] = 999
+            c["temperature"] = 300.0
+            c["restartfreq"] = 100000     # OPES divides by the restart frequency (0 is the subject of C10, not of this check)
+            c["presteps"] = [[(a, tuple(x + V.dyadic(r, -0.25, 0.25, bits=4) for x in c["atoms"][a][2])) for a in touched] for _ in range(2)]
         elif pre == "farther":
             # ABMD: first step with the groups farther apart sets the reference; the base step is then below it
             g1 = ids[:2]
@@ -980,7 +998,7 @@ def check(run):
 
     opts = {"dummy": True, "center": True, "poly": True, "cell": True, "nofitgrad": True, "biases": ["harmonic", "harmonic", "walls", "linear"]}
     kinds = T1 + T1 + T2
-    ncases = 260 if quick else 6000
+    ncases = 500 if quick else 20000
     cases = load_corpus()
     # first block: each component alone under a harmonic restraint, plain groups (the (a) deliverable)
     plain = {"dummy": False, "center": False, "poly": False, "cell": False, "biases": ["harmonic"]}
@@ -1063,10 +1081,10 @@ def check(run):
                         "impl_energy": res and res["steps"] and res["steps"][0].get("energy"), "model": mo[:200]})
     run.cov["correspondence"].update({"cases": len(cases), "fd_decided": n_fd, "boundary_ambiguous": n_amb})
 
-    # ---- thorough tier: finite-difference sweep over configurations the model does not cover
-    if not quick:
+    # ---- finite-difference sweep over configurations the model does not cover (a few per kind in the quick tier)
+    if True:
         ur = V.rng("C01-unmodelled")
-        ucases = gen_unmodelled(ur, 400)
+        ucases = gen_unmodelled(ur, 84 if quick else 3000)
         ures = run_vsim(vsim, ucases)
         for case, res in zip(ucases, ures):
             name = case["name"]
@@ -1089,8 +1107,13 @@ def check(run):
             if s == "ambiguous":
                 run.dist("unmodelled-ambiguous:" + name)
             elif s == "fail":
-                run.violation("fd:" + name, "unmodelled configuration %s: the force on atom %d along %s is %r but minus the finite-difference derivative of the reported energy is %r"
-                              % (name, d["atom"], d["axis"], d["force"], d["minus_dE_dx"]), {"kind": "fd", "case": case, "detail": d})
+                sig = "fd:" + name
+                if name == "opes_frozen" and d["rel_err"] < 2e-3:
+                    # colvarbias_opes::evaluateKernel differentiates h*(exp(-d2/2) - c) as -val*d/sigma (the constant c is kept in
+                    # the derivative: forces vanish continuously at the kernel cut-off); a larger discrepancy is a different defect
+                    sig = "fd:opes_frozen:cutoff-term-omitted"
+                run.violation(sig, "unmodelled configuration %s: the force on atom %d along %s is %r but minus the finite-difference derivative of the reported energy is %r (relative error %.3g)"
+                              % (name, d["atom"], d["axis"], d["force"], d["minus_dE_dx"], d["rel_err"]), {"kind": "fd", "case": case, "detail": d})
             else:
                 run.dist("unmodelled-ok:" + name + (":nonzero" if nz else ":zero-force"))
 
